@@ -183,6 +183,19 @@ CHECKS = {
         design_ref="DESIGN.md section 4, C10",
         note=TB_B + " Retry policy n -> n s; finite-domain symbolic choices only.",
     ),
+    "C11": dict(
+        category="model_checking",
+        technique="dynamic symbolic execution (symrun/z3) with symbolic real time: client timeout, min_timeout, connect delay, issue gaps and reply delays are z3 reals; the order of timers and replies is decided by the solver",
+        text="Bounded symbolic model checking of the client-side request timeout on the real KafkaClient._make_request_to_broker and broker client "
+             "over SimNet, with time as a symbolic real: the configured timeout, the optional longer minimum, the moment the connection is "
+             "established (or never), the gaps between requests and each reply delay (or never) are z3 reals, and the scenario always advances the "
+             "virtual clock to the next due instant, so every ordering of timers and replies is a solver-decided branch. Monitors: each request "
+             "resolves no later than issued + max(timeout, min_timeout); it is a timed-out error iff no reply arrived by then, else the reply; no "
+             "timer of a completed request remains; a late reply changes nothing; with disconnect-on-timeout the connection is dropped and the "
+             "remaining unanswered requests are re-sent on the next one; the bootstrap request is bounded by the timeout after its connect.",
+        design_ref="DESIGN.md section 4, C11",
+        note=TB_B + " Time is a real number (no float rounding); client.timeout is injected as an attribute; brokerclient's datetime conversion is a pass-through.",
+    ),
 }
 
 NOT_YET = "check not built yet in this session; see DESIGN.md section 4 for the planned solver-based harness"
